@@ -5,6 +5,7 @@ in every layout: memory, flushed L0, compacted x2, clean restart, WAL-recovered.
 by column *name* with the stored JSON value (reference oracle) and, through the per-(k,field) table,
 with every other tier (relational oracle)."""
 import json
+import os
 import re
 
 from . import gen
@@ -322,6 +323,10 @@ def run(run):
     run.assumptions = ["python json / the repo's JsonRenderer framing decode responses faithfully",
                        "strings containing unbalanced braces are excluded (STORE grammar, see C17)"]
     run.parallel(history_task, tasks)
+    if run.tier == "thorough" or os.environ.get("VERIF_MEMCHECK"):
+        # sanitizer layer: the same histories under valgrind memcheck (mmap-backed column readers, caches)
+        from .core import run_under_memcheck
+        run_under_memcheck(run, history_task, [dict(t, name="mc-" + t["name"]) for t in tasks[:24]], "C07 histories")
 
 
 def replay(run, path):
